@@ -555,9 +555,14 @@ def _splice(j, bi, cj, report, tag):
     blocks = j["blocks"]
     t = blocks[bi]["t"]
     lo = len(j["locals"])
-    for ld in cj["locals"]:
+    for li, ld in enumerate(cj["locals"]):
         n = dict(ld)
         n["inl"] = cj["id"]
+        if 1 <= li <= cj["argc"] and n.get("name"):
+            # a parameter is just another name for the caller's value: "which variable is this" questions
+            # (an.root_local) should arrive at the caller's variable
+            n["inl_name"] = n["name"]
+            n["name"] = None
         j["locals"].append(n)
     e = len(blocks)
     bo = e + 1
